@@ -352,7 +352,8 @@ Definition try_send {A} (ovf : bool) (cap : N) (q : list A) (m : A) : option (li
 (* --- observations ------------------------------------------------------------------------------ *)
 Inductive obs :=
 | ONone | OOk | OOkN (n : N) | OLoan (hid ch : N) | OErr (e : err) | ORecvNone
-| OResp (v : N) | OAct (hid rid ch : N) | OBool (b : bool) | OPanic.
+| OResp (v : N) | OAct (hid rid ch : N) | OBool (b : bool) | OPanic
+| OQh (r : obs) (h : option (option (bool * obs))).   (* send result + what the scripted backpressure handler saw *)
 
 Inductive op :=
 | Cc (i : N) | Cd (i : N) | Sc (i : N) | Sd (i : N)
@@ -863,6 +864,103 @@ Definition step (g : cfg) (ord : list N) (s : state) (o : op) : state * obs :=
     end in
   (gc s, ob).
 
+(* ---- a send with a scripted backpressure handler (harness op `qh i j`) ----------------------------
+   sender.rs deliver_offset_to_connection_impl with a handler: blocking_send; when the buffer of a
+   connection is full (no overflow) and the receiver is attached, the handler runs -- here: the
+   server in slot j polls (has_requests, receive) INSIDE the handler -- and answers "discard";
+   blocking_send then ends with one more try_send.  send_request has opened the response channel
+   BEFORE deliver_offset, so a server that polls at that point gets a connected ActiveRequest.
+   `dord` = the order in which the connections are served (server instances). *)
+Definition hscript := option (option (bool * obs)).
+Definition run_handler (g : cfg) (ord : list N) (s : state) (j : N) : state * option (bool * obs) :=
+  match slot_inst (s_sslot s) j with
+  | None => (s, None)
+  | Some sv =>
+    let '(s, b) := server_has_requests g s sv in
+    match server_receive (srv_fuel s) g s sv j ord with
+    | (s, SRNone) => (s, Some (b, ORecvNone))
+    | (s, SRErr) => (s, Some (b, OErr EMaxBorrows))
+    | (s, SRFuel) => (s, Some (b, OPanic))
+    | (s, SRSome a) =>
+      let s := st_acts s (s_acts s ++ [a]) in
+      (st_logs s (s_rlog s) (s_slog s ++ [(sv, ac_msg a)]), Some (b, OAct (q_hid (ac_msg a)) (q_rid (ac_msg a)) (q_ch (ac_msg a))))
+    end
+  end.
+Definition push_request (g : cfg) (cl : N) (m : reqmsg) (s : state) (sv : N) : option state :=
+  match get_conn s cl sv with
+  | None => None
+  | Some k =>
+    match try_send (ovq g) (MA g) (k_rsub k) m with
+    | None => None
+    | Some (q, ev) =>
+      let s := upd_conn s cl sv (fun k' => k_with_req k' q (k_rbor k') (k_rcomp k')) in
+      let s := upd_client s cl (fun c => cl_with_rc c (rc_inc (cl_rc c) (q_id m))) in
+      Some (match ev with
+            | None => s
+            | Some old => upd_client s cl (fun c => cl_with_rc c (rc_dec (cl_rc c) (q_id old)))
+            end)
+    end
+  end.
+Definition deliver_request_h (g : cfg) (ord : list N) (cl : N) (m : reqmsg) (j : N)
+    (acc : state * N * bool * hscript) (sv : N) : state * N * bool * hscript :=
+  let '(s, n, armed, hr) := acc in
+  match get_conn s cl sv with
+  | None => acc
+  | Some k =>
+    if negb (view_active (k_cv k)) then acc else
+    match push_request g cl m s sv with
+    | Some s' => (s', n + 1, armed, hr)
+    | None =>
+      (* stalled: the handler is called only while the receiver is attached *)
+      if negb (view_on (k_svw k)) then acc else
+      let '(s, armed, hr) :=
+        if armed then let '(s, r) := run_handler g ord s j in (s, false, Some r) else (s, armed, hr) in
+      match push_request g cl m s sv with
+      | Some s' => (s', n + 1, armed, hr)
+      | None => (s, n, armed, hr)
+      end
+    end
+  end.
+Definition client_send_h (g : cfg) (ord dord : list N) (s : state) (m : reqmsg) (j : N) : state * sum err pendrec * hscript :=
+  let cl := q_cl m in
+  match get_client s cl with
+  | None => (s, inl EMaxActive, None)
+  | Some c =>
+    if N.leb (MA g) (cl_active c) then (request_release s m false, inl EMaxActive, None) else
+    let s := client_sync g s cl in
+    let s := st_conns s (map (fun k => if N.eqb (k_cl k) cl && view_on (k_cv k)
+                                       then k_map_state k (q_ch m) (fun v => fst (ch_set_state v (q_rid m))) else k) (s_conns s)) in
+    let s := upd_client s cl (fun c => mk_client (cl_inst c) (cl_obj c) (cl_avail c) (cl_ridc c) (cl_active c + 1) (cl_loans c) (cl_sloans c) (cl_rc c)) in
+    let s := client_reclaim s cl in
+    let '(stamp, s) := fresh s in
+    let m := {| q_id := q_id m; q_cl := q_cl m; q_rid := q_rid m; q_ch := q_ch m; q_hid := q_hid m; q_stamp := stamp |} in
+    let '(s, n, _, hr) := fold_left (deliver_request_h g ord cl m j) dord (s, 0, true, None) in
+    let s := upd_client s cl (fun c => mk_client (cl_inst c) (cl_obj c) (cl_avail c) (cl_ridc c) (cl_active c) (cl_loans c - 1) (cl_sloans c) (cl_rc c)) in
+    (s, inr {| pn_cl := cl; pn_msg := m; pn_n := n |}, hr)
+  end.
+Definition do_qh (g : cfg) (ord dord : list N) (s : state) (i j : N) : state * obs :=
+  match slot_inst (s_cslot s) i with
+  | None => (s, ONone)
+  | Some cl =>
+    let hid := s_hid s in
+    let s := st_hid s (hid + 1) in
+    match client_loan g s cl hid with
+    | (s, Panic) => (s, OPanic)
+    | (s, Val (inl e)) => (s, OQh (OErr e) None)
+    | (s, Val (inr m)) =>
+      match client_send_h g ord dord s m j with
+      | (s, inl e, hr) => (s, OQh (OErr e) hr)
+      | (s, inr p, hr) => (st_pends s (s_pends s ++ [p]), OQh (OOkN (pn_n p)) hr)
+      end
+    end
+  end.
+(* the alphabet of the correspondence runs = the 20 operations of `step` + the scripted send *)
+Inductive opx := XOp (o : op) | XQh (i j : N).
+Definition stepx (g : cfg) (ord dord : list N) (s : state) (x : opx) : state * obs :=
+  match x with
+  | XOp o => step g ord s o
+  | XQh i j => let '(s, ob) := do_qh g ord dord s i j in (gc s, ob)
+  end.
 (* the hypothesis of the routing theorem (proofs/ReqResRoute.v), executable so that the driver
    can evaluate it on every history: the connection that response_sender.connections[idx]
    resolves to after update_connections belongs to the client whose request is answered *)
@@ -929,6 +1027,13 @@ Definition server_peers (s : state) (j : N) : list N :=
   | None => []
   | Some sv => nodupN (map k_cl (filter (fun c => N.eqb (k_sv c) sv && view_on (k_svw c)) (s_conns s)) ++
                        flat_map (fun r => match r with Some cl => [cl] | None => [] end) (s_creg s))
+  end.
+
+(* delivery order candidates of the scripted send: the client's active connections *)
+Definition client_send_peers (s : state) (i : N) : list N :=
+  match slot_inst (s_cslot s) i with
+  | None => []
+  | Some cl => nodupN (map k_sv (filter (fun c => N.eqb (k_cl c) cl && view_on (k_cv c)) (s_conns s)) ++ s_sreg s)
   end.
 
 (* ---------------------------------------------------------------------------------------- *)
